@@ -23,7 +23,13 @@ EXPLANATION = (
     "position; R14.2 every BINARY_*/INPLACE_*/UNARY_* handler passes the "
     "dunder its name denotes; R14.3 the reflected-operator table derived from "
     "SLOTS pairs __op__ with __rop__, _call_binop_on_bindings tries (x,y,op) "
-    "then (y,x,rop), and the in-place fallback strips the leading i; R14.4 "
+    "then (y,x,rop) - the list its dispatch loop walks is evaluated path by "
+    "path (built in place with append/insert(0)/reverse under ifs, or returned "
+    "by a module-local helper with early returns) and must be [(x,y,op)] "
+    "without a reflected name, [(y,x,rop),(x,y,op)] exactly when "
+    "_overrides(y.cls, x.cls, rop) holds and [(x,y,op),(y,x,rop)] otherwise; a "
+    "construction outside that fragment is an analysis error - and the "
+    "in-place fallback strips the leading i; R14.4 "
     "for 16 builtin types the presence of +,-,*,/,neg,[] (and len/iter/"
     "contains/call) along the stub MRO equals CPython's; R14.5 for 14 ground "
     "builtin types the stub operator signatures admit an operand pair iff "
@@ -33,7 +39,8 @@ EXPLANATION = (
     "CPython 3.12's; R14.7 an operator with no result and no error reports "
     "unsupported-operands, otherwise the binder error; R14.8 the memo key of "
     "Converter.constant_to_value (a cache from constant *values* to abstract "
-    "values) carries type(pyval) and, for every container kind the constant "
+    "values; the cache is self.<..cache..>[key], also through a once-bound "
+    "local alias of that attribute) carries type(pyval) and, for every container kind the constant "
     "dispatch converts element by element (tuple, frozenset: read from the "
     "`pyval.__class__ is K` arms of _constant_to_value), an arm that derives "
     "the key from the element types *recursively* (a self-calling helper); "
